@@ -15,6 +15,8 @@ THEOREMS = [
     "KrroodVerif.Eql.C02_multiplicity_typed",
     "KrroodVerif.Eql.C02_the_typed",
     "KrroodVerif.Eql.C02_cex_falsyBound",
+    "KrroodVerif.Eql.C02_poset_not_lt_ne_ge",
+    "KrroodVerif.Eql.C02_poset_negated_atom",
     "KrroodVerif.Eql.C01_cover",
     "KrroodVerif.Eql.eval_total",
 ]
